@@ -39,7 +39,7 @@ const MARKER_QUERY_PATH: &str = "/provenance.marker.v1.Query/Marker";
 const ATTRIBUTES_QUERY_PATH: &str = "/provenance.attribute.v1.Query/Attributes";
 const MARKER_ACCOUNT_URL: &str = "/provenance.marker.v1.MarkerAccount";
 const TRANSFER_URL: &str = "/provenance.marker.v1.MsgTransferRequest";
-const MARKER_KINDS: [&str; 4] = ["restricted", "coin", "none", "undecodable"];
+const MARKER_KINDS: [&str; 6] = ["restricted", "coin", "none", "undecodable", "restricted_inactive", "coin_inactive"];
 
 type Deps = OwnedDeps<MockStorage, MockApi, MockProvenanceQuerier, Empty>;
 
@@ -158,8 +158,8 @@ fn marker_answer(t: &Tables, data: &Binary) -> QuerierResult {
     };
     let kind = t.markers.get(&req.id).unwrap_or(&t.default_marker).as_str();
     let marker_type = match kind {
-        "restricted" => MarkerType::Restricted,
-        "coin" => MarkerType::Coin,
+        "restricted" | "restricted_inactive" => MarkerType::Restricted,
+        "coin" | "coin_inactive" => MarkerType::Coin,
         // A marker that JSON-decodes to nothing usable: `denom` has the wrong type, so
         // deserialising the `Any` (and therefore the whole response) fails in the contract.
         "undecodable" => {
@@ -180,7 +180,7 @@ fn marker_answer(t: &Tables, data: &Binary) -> QuerierResult {
             address: t.contract_addr.clone(),
             permissions: vec![1, 2, 3, 4, 5, 6, 7],
         }],
-        status: MarkerStatus::Active.into(),
+        status: if kind.ends_with("_inactive") { MarkerStatus::Finalized.into() } else { MarkerStatus::Active.into() },
         denom: req.id.clone(),
         supply: "1000000000".to_string(),
         marker_type: marker_type.into(),
